@@ -1096,6 +1096,20 @@ func (env *Env) callExpr(x *ast.CallExpr) EVal {
 		}
 		_, present := env.tr.mapGet(env.curState(), m.T, m.V[0], k.V)
 		return env.boolVal(present)
+	case "emptymap":
+		// emptymap(m): no key is present in map m (the presence set is the empty set, and the length is 0)
+		argN(1)
+		m := env.eval(x.Args[0])
+		if _, ok := m.T.Underlying().(*types.Map); !ok {
+			env.fail("emptymap: argument must be a map")
+		}
+		if !env.tr.mapDecl(m.T) {
+			env.fail("emptymap: unsupported key type")
+		}
+		ks := mapKeySort(m.T)
+		st := env.curState()
+		pres := f.Select(env.tr.get(st, mapComp(m.T, "p")), m.V[0])
+		return env.boolVal(f.And(f.Eq(pres, f.ConstArr(ArrS(ks, SBool), f.False())), f.Eq(env.tr.mapLen(st, m.T, m.V[0]), f.BVi(64, 0))))
 	case "sameslice":
 		// sameslice(x, y): same backing region, offset and length (y is typically a slice expression over a parameter)
 		argN(2)
